@@ -28,6 +28,8 @@ def check(ctx):
     from symfc import Symfc
 
     rng = np.random.default_rng(ctx.seed)
+    from o1 import check_o1
+    check_o1(ctx, "C04", np.random.default_rng(ctx.seed + 1001))   # the exported first-order basis
     ctx.rule = ("reference: cells with N<=3 (orders 2,3), N<=2 (order 4), triclinic/monoclinic/hexagonal/cubic, n_lp in {1,2}, cutoff none and between shells; "
                 "census: G-tables N<=4, which set-partition patterns of the n indices are eliminated. Non-trivial: reference dimension >= 1")
     # ---- census of eliminated patterns on tables (no cutoff: nothing may be eliminated)
